@@ -409,7 +409,7 @@ class _DictStruct(dict, ImmutableMixin):
         self._field_definition = the_map
         self._instance = struct_instance
         self._name = name
-        super().__init__(mydict)
+        super().__init__(self._get_defensive_copy_if_needed(mydict))
 
     def __setitem__(self, key, value):
         super()._raise_if_immutable()
